@@ -97,6 +97,23 @@ func runC08(c *Ctx) {
 			in.Emit("cache-store", site, a[0], a[1], a[2])
 			return Tup{}, true
 		}
+		// any OTHER method invoked on the cache object (through an optional-interface assertion such as
+		// interface{ LoadOrStore(k, v) }) that is handed a key and a value stores under that key as well
+		prevUnmodelled := in.Unmodelled
+		in.Unmodelled = func(in *Interp, site ssa.Instruction, name string, a []AVal) {
+			if strings.HasPrefix(name, "invoke:") && len(a) >= 1 && strings.Contains(keyOf(a[0]), gname) {
+				switch {
+				case len(a) >= 3:
+					in.Emit("cache-store", site, a[0], a[1], a[2])
+					in.Emit("cache-other", site, a[0], a[1])
+				case len(a) == 2:
+					in.Emit("cache-other", site, a[0], a[1])
+				}
+			}
+			if prevUnmodelled != nil {
+				prevUnmodelled(in, site, name, a)
+			}
+		}
 		trs := in.Explore(fn, symArgs(fn), 3000)
 		var keyBad, missBad, unk []string
 		var noLoadRets [][]string
@@ -110,7 +127,7 @@ func runC08(c *Ctx) {
 			if t.Panic != "" {
 				continue
 			}
-			var loads, stores []Event
+			var loads, stores, others []Event
 			cellWrites := map[string][]string{} // label prefix -> value keys
 			for _, e := range t.Events {
 				switch e.Kind {
@@ -120,6 +137,8 @@ func runC08(c *Ctx) {
 					}
 				case "cache-store":
 					stores = append(stores, e)
+				case "cache-other":
+					others = append(others, e)
 				case "store-cell":
 					lbl := keyOf(e.Args[0])
 					cellWrites[lbl] = append(cellWrites[lbl], flattenKeys(e.Args[1])...)
@@ -130,6 +149,13 @@ func runC08(c *Ctx) {
 			for _, ld := range loads {
 				for r := range rootsOf(keyOf(ld.Args[1])) {
 					keyRootsAll[r] = true
+				}
+			}
+			for _, o := range others {
+				for _, ld := range loads {
+					if keyOf(ld.Args[1]) != keyOf(o.Args[1]) {
+						keyBad = append(keyBad, "the cache is also accessed through another method (an optional interface of the cache object) under a different key: "+keyOf(o.Args[1])+" vs "+keyOf(ld.Args[1])+" used by Load")
+					}
 				}
 			}
 			if t.Converged {
